@@ -139,6 +139,27 @@ theorem toDense_cell {α : Type} (g : Grid α) (hg : g.WF) (fill : α) (hne : g.
 example : (MNT.ofGrid C05.g32).toDense 0
     = some [[[1, 2, 0], [3, 0, 0]], [[4, 0, 0], [5, 6, 7]], [[8, 9, 0], [0, 0, 0]]] := by decide
 
+/-! ### fill -/
+
+/-- **fillna_col** changes exactly the missing entries of column `col` (to `fill`) and nothing else:
+    every cell of another column, every non-missing entry, all offsets and the shape are unchanged. -/
+theorem fillna_exact {α : Type} (g : Grid α) (hg : g.WF) (isMissing : α → Bool) (col : Nat) (fill : α)
+    (hcol : col < g.numCols) :
+    (MNT.ofGrid g).fillnaCol isMissing col fill
+      = MNT.ofGrid { g with rows := g.rows.map fun row => (row.zipIdx 0).map fun (cell, c) =>
+          if c = col then cell.map (fun v => if isMissing v then fill else v) else cell } :=
+  fillnaCol_ofGrid g hg isMissing col fill hcol
+
+theorem met_fillna_exact {α : Type} (w : WGrid α) (hw : w.WF) (isMissing : α → Bool) (col : Nat) (fill : α)
+    (hcol : col < w.grid.numCols) :
+    (MET.ofW w).fillnaCol isMissing col fill
+      = MET.ofW { w with grid := { w.grid with rows := (w.grid.rows.map fun row => (row.zipIdx 0).map fun (cell, c) =>
+          if c = col then cell.map (fun v => if isMissing v then fill else v) else cell) } } :=
+  met_fillnaCol_ofW w hw isMissing col fill hcol
+
+example : ((MNT.ofGrid ({ numCols := 2, rows := [[[1, 0], [0]], [[0], [2, 0]]] } : Grid Nat)).fillnaCol (· == 0) 1 9).values
+    = [1, 0, 9, 0, 2, 9] := by decide
+
 /-! ### MultiEmbeddingTensor concatenation -/
 
 theorem met_catRows_cells {α : Type} (w0 : WGrid α) (rest : List (WGrid α))
